@@ -177,6 +177,28 @@ __wrap_free(void * p)
 	__real_free(p);
 }
 
+/* ---- realloc called by library code: always moves, so that the old block is judged like any freed block ---- */
+void * __real_realloc(void *, size_t);
+void *
+__wrap_realloc(void * p, size_t n)
+{
+	void * q;
+	size_t old;
+
+	if (!watching || p == NULL)
+		return (fail_mallocs ? NULL : __real_realloc(p, n));
+	if (n == 0) {
+		__wrap_free(p);
+		return (NULL);
+	}
+	old = malloc_usable_size(p);
+	if ((q = __wrap_malloc(n)) == NULL)
+		return (NULL);
+	memcpy(q, p, old < n ? old : n);
+	__wrap_free(p);
+	return (q);
+}
+
 #ifdef HAVE_FREE_HOOK
 /* ---- every block that anyone (the library, libc on its behalf, OpenSSL) releases while a secret is armed ---- */
 void
@@ -478,7 +500,9 @@ main(void)
 			watching = 1; expect_zero = 0;
 			rc = aws_readkeys(tmpl, &id, &ks);
 			watching = 0;
-			cur_secret = NULL;
+			/* on success the copy of the secret now belongs to the caller: forget its address (a later block at
+			 * the same address is not the secret's copy) */
+			cur_secret = NULL; cur_secret_len = 0; secret_block = NULL;
 			memset(stdio_buf, 0, sizeof(stdio_buf));
 			unlink(tmpl);
 			if (rc == 0) {
